@@ -375,7 +375,7 @@ func TestVerif_C40(t *testing.T) {
 	// a few tokens that only hand-written input reaches reliably
 	r.Cases("token-string-fixed", 1, func(c *verifrt.Case) {
 		for _, in := range []string{"<!DOCTYPE html>", "<!doctype  html  >", "<!DOCTYPE>", "<!DOCTYPE a&gt;b>", "<!DOCTYPE &#32;x>", "<!DOCTYPE &#10;x>", "<!DOCTYPE x&#13;>", "<!DOCTYPE \x00>",
-			"<!---->", "<!--->-->", "<!---->>", "<!-- - -- --! -->", "<!--x--!>", "<!--&gt;-->", "<!--&-->", "<!--\r-->", "<!--\x00-->", "<!-->", "<?php ?>", "</ x>", "</>",
+			"<!---->", "<!--->-->", "<!---->>", "<!-- - -- --! -->", "<!--x--!>", "<!--&gt;-->", "<!----!&gt;-->", "<!--x--!&gt;y-->", "<!---&gt;-->", "<!--!&gt;-->", "<!--x--&gt;y-->", "<!--&-->", "<!--\r-->", "<!--\x00-->", "<!-->", "<?php ?>", "</ x>", "</>",
 			"<a b='&#13;'>", "<a b='&#10;\r\n'>", "<a b=\"'\" c='\"' d=&quot; e=&#39;>", "<a =b=c>", "<a \"=\">", "<a b=c/>", "<a b=c />", "<br/>", "<a/b/c>", "<p a=/>", "<A\x00B C\x00D=E\x00F>",
 			"<script>", "<plaintext>", "<title x=y>", "</script x=y>", "<a b=&amp c=&ampx d=&amp= e='&copy=1'>", "<a b=>", "<a b= >", "<x:y z:w=1>", "<a<b c<d=e>", "<a b=\xff\xfe>"} {
 			c.Describe(map[string]any{"input": fmt.Sprintf("%q", in)})
